@@ -17,6 +17,7 @@ import (
 	"seehuhn.de/go/pdf/font/glyphdata/sfntglyphs"
 	"seehuhn.de/go/pdf/font/glyphdata/type1glyphs"
 	"seehuhn.de/go/pdf/font/textextract"
+	"seehuhn.de/go/pdf/graphics/content"
 	"seehuhn.de/go/pdf/graphics/extract"
 	"seehuhn.de/go/pdf/nametree"
 	"seehuhn.de/go/pdf/numtree"
@@ -43,6 +44,7 @@ type walkStats struct {
 	Fonts      int
 	FontFiles  int
 	Ops        int
+	Inline     int
 	Outline    int
 	Names      int
 	Malformed  int // calls that returned a MalformedFileError
@@ -211,8 +213,14 @@ func walk(d []byte, mode pdf.ReaderErrorHandling, st *walkStats) {
 				touchFont(st, f)
 			}
 		}
-		for range pg.NewIter().All() {
+		for name, args := range pg.NewIter().All() {
 			st.Ops++
+			if name == content.OpInlineImage && st.Inline < 50 {
+				// the public decode step for inline images
+				st.Inline++
+				_, err := content.DecodeInlineImage(content.Operator{Name: name, Args: args}, pg.Resources)
+				st.note(err)
+			}
 		}
 		rd.Reset()
 		st.note(rd.ProcessPage(pg))
